@@ -1,6 +1,7 @@
 import FGVerif.Proofs.C14Count
 import FGVerif.Proofs.C14Cons
 import FGVerif.Proofs.C14Tables
+import FGVerif.Proofs.C14Iter
 /-!
   C14 — proxy expansion is exhaustive and conservative.
 
@@ -26,12 +27,21 @@ import FGVerif.Proofs.C14Tables
     (kernel evaluation of the formula), `da_acyclic_pos/neg`, `common_acyclic`, `da_keys_are_names`,
     `da_single_labels`.
 
-  Proof files: `C14CountA–C`, `C14Count` (counting, invariants, termination), `C14ConsA–D`, `C14Cons`
-  (conservation), `C14Tables`; they build on `Proofs/C13*.lean`.
+  * conservation at the `iter(Proxy)` level (`Proofs/C14Iter.lean`, about the traced enumeration `generateT`,
+    `generateT_projection`: forgetting the bookkeeping gives `generate`):
+    `C14.conservation_iter_symbols` — symbols of every sample (+ one "#" per replaced node) ~ symbols of the
+    chosen patterns, unconditionally; `C14.conservation_iter` — every sample passes `conservedIterB`: bond labels
+    (+ bonds dropped with empty patterns) ~ bond labels of the chosen patterns whenever the `build_graphs`
+    result it was finished from is simple or has no parallel bonds (`sideOk`, decidable), the labels between
+    any two names are unchanged by `finish`, ids are unchanged, the sample is well-formed and carries
+    `aam = id + 1` when enabled; `C14.collapse_exact`, `finish_symbols/_bonds/_labels/_aam/_wf`.
+    `C14.collapse_loses_parallel`: the side condition is needed — the final `nx.Graph(multigraph)` collapse
+    keeps one of several parallel bonds (deliberately).  The harness reports per run how often the side
+    condition fails and the driver applies the conservation check to the implementation's samples for which
+    it holds (symbols: to all).
 
-  Not claimed: conservation at the `iter(Proxy)` level.  The final `nx.Graph(multigraph)` collapse keeps
-  one of several parallel bonds (deliberately), so bond labels are conserved there only for results
-  without parallel bonds; the harness reports how often that side condition fails.
+  Proof files: `C14CountA–C`, `C14Count` (counting, invariants, termination), `C14ConsA–D`, `C14Cons`
+  (conservation), `C14Iter` (iter level), `C14Tables`; they build on `Proofs/C13*.lean`.
 -/
 namespace C14
 
